@@ -141,7 +141,8 @@ public:
          * 
          * \param rhs The PacketWriter to be moved.
          */
-        PacketWriter(PacketWriter &&rhs) TINS_NOEXCEPT {
+        PacketWriter(PacketWriter &&rhs) TINS_NOEXCEPT
+        : handle_(0), dumper_(0) {
             *this = std::move(rhs);
         }
         
@@ -154,8 +155,8 @@ public:
          * \param rhs The PacketWriter to be moved.
          */
         PacketWriter& operator=(PacketWriter &&rhs) TINS_NOEXCEPT {
-            handle_ = 0;
-            dumper_ = 0;
+            // rhs takes over the capture this writer had open, and
+            // flushes and closes it when it is destroyed
             std::swap(handle_, rhs.handle_);
             std::swap(dumper_, rhs.dumper_);
             return* this;
